@@ -89,7 +89,12 @@ class Check(PropCheck):
             'non-trivial: tree has >= 1 internal non-root branch; distinct by op-list hash')
 
     def variants(self, t, rng, names):
-        vs = [t, reorder(t, rng), add_unary(t, rng, rng.randint(1, 2)), redraw_root(t)]
+        un = add_unary(t, rng, rng.randint(1, 2))
+        if rng.random() < 0.4:
+            # unary node(s) above the real root
+            for _ in range(rng.randint(1, 2)):
+                un = gen.T(children=[un])
+        vs = [t, reorder(t, rng), un, redraw_root(t)]
         perm = list(names); rng.shuffle(perm)
         mapping = dict(zip(names, perm))
         vs.append(rename(t, mapping))
@@ -102,10 +107,12 @@ class Check(PropCheck):
         k = 0
         for n in range(2, maxn + 1):
             for sh in gen.all_shapes(n):
-                for style in (0, 1):
+                for style in (0, 1, 2):
                     base = gen.default_names(n) if style == 0 else ['Tip_%d' % (i + 8) for i in range(n)]
+                    if style == 2:
+                        base = ['a', 'B', 'c', 'D', 'e', 'F'][:n]       # mixed case: byte order differs from case-insensitive order
                     perms = list(itertools.permutations(base))
-                    if style == 1 or (n == 6):
+                    if style >= 1 or (n == 6):
                         perms = rng.sample(perms, min(len(perms), 12))
                     for perm in perms:
                         t = sh.copy(); gen.name_leaves(t, list(perm))
@@ -120,13 +127,32 @@ class Check(PropCheck):
             n = rng.randint(4, 40 if self.tier == 'quick' else 300)
             if rng.random() < 0.2:
                 n = rng.randint(30, 36)
-            names = ['t%d' % i for i in range(n)] if rng.random() < 0.5 else ['Tip_%d' % i for i in range(n)]
+            r0 = rng.random()
+            names = ['t%d' % i for i in range(n)] if r0 < 0.4 else (['Tip_%d' % i for i in range(n)] if r0 < 0.7 else
+                     [('x%d' if i % 2 else 'X%d') % i for i in range(n)] if r0 < 0.85 else [chr(ord('a') + (i % 26)).upper() * (i % 2) + chr(ord('a') + (i % 26)) * (1 - i % 2) + str(i // 26) for i in range(n)])
             t = gen.rand_tree(rng, n, 'none', p_multi=rng.choice([0, 0.3]), p_unary=0.0, internal_names=0.2, names=names)
             vs, mapping = self.variants(t, rng, names)
             ops = []
             for vi, v in enumerate(vs):
                 ops += ['sel %d' % vi, gen.parse_op(gen.to_newick(v)), 'dump', 'partitions']
             cases.append(Case('r%d' % j, ops, {'mapping': mapping}))
+        for j in range(80 if self.tier == 'quick' else 1500):
+            n = rng.randint(4, 12)
+            names = ['m%02d' % i for i in range(n)]
+            t = gen.rand_tree(rng, n, 'none', p_multi=0.2, internal_names=0.0, names=names)
+            victim = rng.choice(names); new = rng.choice(['zz', 'a', 'm05x', 'M'])
+            t2 = rename(t, dict((x, new if x == victim else x) for x in names))
+            how = rng.choice(['rename_by_name %s %s' % (vf.enc_str(victim), vf.enc_str(new)), 'SETNAME'])
+            ops = ['sel 0', gen.parse_op(gen.to_newick(t)), 'partitions']
+            if how == 'SETNAME':
+                ops += ['get_by_name %s' % vf.enc_str(victim), 'pick byname 0', 'set_name $0 %s' % vf.enc_str(new)]
+                ops[-2] = 'pick live %d' % rng.randint(0, 10 ** 6)      # any live node: internal nodes may be renamed too
+                ops[-1] = 'set_name $0 %s' % vf.enc_str(new)
+                ops = ops[:3] + ['rename_by_name %s %s' % (vf.enc_str(victim), vf.enc_str(new))]
+            else:
+                ops += [how]
+            ops += ['dump', 'partitions', 'sel 1', gen.parse_op(gen.to_newick(t2)), 'dump', 'partitions']
+            cases.append(Case('n%d' % j, ops, {'rename_seq': True}))
         return cases
 
     def nontrivial(self, case, il):
@@ -158,7 +184,10 @@ class Check(PropCheck):
                     if txt != ''.join(sorted(side)):
                         bad.append((i, 'partition_to_leaves(%s) = %r does not list one side' % (b, txt))); break
                 sets.append(set(gs))
-        if not bad and len(sets) == 5:
+        if not bad and case.meta.get('rename_seq') and len(sets) >= 2:
+            if sets[-1] != sets[-2]:
+                bad.append((len(case.ops) - 1, 'bipartitions after renaming a leaf differ from those of a freshly parsed copy of the renamed tree'))
+        if not bad and len(sets) == 5 and not case.meta.get('rename_seq'):
             m = case.meta.get('mapping')
             if not (sets[0] == sets[1] == sets[2] == sets[3]):
                 bad.append((len(case.ops) - 1, 'split set changed under child reordering / unary nodes / root redrawing'))
